@@ -279,8 +279,31 @@ def effective_options_always_merged(ctx, prog, crate, b, rule):
         if base in entry_params:
             arms, otherwise = _t.arm_targets(t)
             none_arm = arms.get(0, otherwise)
-    for what, op, c in uses:
+    # the parameter may have been copied into a spliced helper's own parameter before it is matched on
+    if none_arm is None:
+        for bi, t, base in _t.discr_switches(b):
+            if any(o_[0] == "place" and o_[1] in entry_params and not o_[2] for o_ in origins(b, {"k": "copy", "p": {"l": base, "proj": [], "ty": ""}})):
+                arms, otherwise = _t.arm_targets(t)
+                none_arm = arms.get(0, otherwise)
+
+    def eff_origins(op, depth=6):
+        """origins(), seen through the wrappers a borrowed-or-owned result travels in: Cow::Borrowed / Cow::Owned / Some(..)
+        aggregates and the Deref / as_deref / as_ref / borrow calls that take the reference back out."""
+        out = []
         for o in origins(b, op):
+            if depth > 0 and o[0] == "call" and o[1].args and (o[1].callee.endswith(("Deref>::deref", "Borrow<T>>::borrow", "AsRef<T>>::as_ref")) or
+                                                                 o[1].callee in ("std::option::Option::as_deref", "std::option::Option::as_ref")):
+                out += eff_origins(o[1].args[0], depth - 1)
+            elif depth > 0 and o[0] == "rvalue" and o[1]["k"] == "agg" and o[1].get("ak") == "adt" and o[1]["ops"] and \
+                    (norm(o[1]["adt"]) == "std::borrow::Cow" or (norm(o[1]["adt"]) == "std::option::Option" and o[1].get("variant") == "Some")):
+                sub = eff_origins(o[1]["ops"][0], depth - 1)
+                # what decides that the borrowed options are used as they are is the arm that wraps them
+                out += [(x[0], x[1], x[2], o[2]) if x[0] == "place" else x for x in sub]
+            else:
+                out.append(o)
+        return out
+    for what, op, c in uses:
+        for o in eff_origins(op):
             if o[0] == "call":
                 ok = o[1].callee == "benchmark::options::BenchOptions::overwrite"
                 desc = "call " + o[1].callee
@@ -573,7 +596,9 @@ def r15_4(ctx, prog, crate):
         ctx.check(bool(same), "R15.4", ["thread-counts", "same-vector"], "sort and dedup act on different vectors", dd[0].line())
         # the run_bench closure reads thread_counts only after both
         uses = [c for c in b.live_calls() if c.callee.endswith("::len") or "{closure#" in c.name]
-        late = [c for c in b.live_calls() if "run_bench_entry::{closure#1}" in c.name]
+        from .common import closure_of
+        late = [c for c in b.live_calls() if c.is_fn_trait_call and closure_of(prog, crate, c.name, b.path) and
+                any(q.callee in ("benchmark::BenchContext::new", "benchmark::Bencher::new") for q in prog.bodies[(crate, c.name, -1)].live_calls())]
         ctx.check(all(b.dominates(dd[0].bb, c.bb) for c in late) and late, "R15.4", ["thread-counts", "normalised-before-use"],
                   "benchmarks can run before the thread counts are normalised", b.where(0))
     # empty => [NonZeroUsize::MIN]
